@@ -171,7 +171,7 @@ class Wrapf(util.WrapperMixin):
                               fmt_func)
             else:
                 append_format(type_bound_part,
-                              "procedure :: {F_name_function} => {F_name_impl}",
+                              "procedure :: {F_name_function} =>\t {F_name_impl}",
                               fmt_func)
             
     def wrap_struct(self, node, fileinfo):
@@ -451,7 +451,7 @@ class Wrapf(util.WrapperMixin):
             fmt.F_name_impl = wformat(options.F_name_impl_template, fmt)
 
             append_format(type_bound_part,
-                          "procedure :: {F_name_function} => {F_name_impl}",
+                          "procedure :: {F_name_function} =>\t {F_name_impl}",
                           fmt)
 
             append_format(
@@ -474,7 +474,7 @@ cxxptr = {F_this}%{F_derived_member}%addr
             fmt.F_name_impl = wformat(options.F_name_impl_template, fmt)
 
             append_format(type_bound_part,
-                          "procedure :: {F_name_function} => {F_name_impl}",
+                          "procedure :: {F_name_function} =>\t {F_name_impl}",
                           fmt)
 
             # XXX - release existing pointer?
@@ -498,7 +498,7 @@ type(C_PTR), intent(IN) :: {F_derived_member}
             fmt.F_name_impl = wformat(options.F_name_impl_template, fmt)
 
             append_format(type_bound_part,
-                          "procedure :: {F_name_function} => {F_name_impl}",
+                          "procedure :: {F_name_function} =>\t {F_name_impl}",
                           fmt)
 
             append_format(
@@ -1981,11 +1981,11 @@ rv = .false.
                 type_bound_part.append("#" + node.cpp_if)
             if is_static:
                 append_format(type_bound_part,
-                              "procedure, nopass :: {F_name_function} => {F_name_impl}",
+                              "procedure, nopass :: {F_name_function} =>\t {F_name_impl}",
                               fmt_func)
             elif not is_ctor:
                 append_format(type_bound_part,
-                              "procedure :: {F_name_function} => {F_name_impl}",
+                              "procedure :: {F_name_function} =>\t {F_name_impl}",
                               fmt_func)
             if node.cpp_if:
                 type_bound_part.append("#endif")
